@@ -244,12 +244,18 @@ pub fn run(args: &Args) {
     let mut rep = Report::new(args, Level::ModelChecking);
     let th = args.tier == mcx::Tier::Thorough;
     let alpha = op_alpha(th);
-    let depth = if th { 4 } else { 3 };
+    let depth = 4;
     let bases = bases();
     let mut cases: Vec<(usize, Vec<usize>)> = Vec::new();
+    // quick: depth 3 over the whole alphabet, depth 4 over the writes-and-failures core
+    let core: Vec<usize> = (0..alpha.len()).filter(|&i| matches!(alpha[i], SOp::Direct(_) | SOp::DirectFail(..) | SOp::PublishFail(_) | SOp::ReceiveFail(_))).take(8).collect();
     for b in 0..bases.len() {
         for d in 0..=depth {
-            mcx::enumerate::sequences(alpha.len(), d, |s| cases.push((b, s.to_vec())));
+            if !th && d == 4 {
+                mcx::enumerate::sequences(core.len(), d, |s| cases.push((b, s.iter().map(|&i| core[i]).collect())));
+            } else {
+                mcx::enumerate::sequences(alpha.len(), d, |s| cases.push((b, s.to_vec())));
+            }
         }
     }
     let accs: Vec<Acc> = cases
